@@ -32,9 +32,11 @@ LEVEL_TEXT = (
     "contracted axis (axes) the per-block partial contractions add up to the full contraction (any additive monoid / "
     "semiring, no size bound), tensordot_chunking_irrelevant, contraction_tree_sum (the final sum as a K1 tree, any "
     "split_every); the tsqr stacking plan (stackGroups_flatten: groups are consecutive runs of all R blocks in order; "
-    "stackGroups_nonempty; cumsumBlocks_spec: unstacking slices tile [0,Σ)); TSQR block algebra for two row blocks "
-    "over a commutative ring with Mathlib matrices (tsqr_two_blocks: QR = A; tsqr_two_blocks_orthonormal; svd_from_qr; "
-    "sfqr_two_blocks). NOT proved: n-block/recursive TSQR as a whole, einsum's index bookkeeping, and anything numerical — "
+    "stackGroups_nonempty; cumsumBlocks_spec: unstacking slices tile [0,Σ)); TSQR block algebra over a commutative ring "
+    "with Mathlib matrices for ANY number of row blocks of any heights (tsqr_n_blocks: A_i = Q_i R_i and [R_1;…;R_N] = Q'R' "
+    "⇒ A = (blockdiag(Q_i) Q') R'; tsqr_n_blocks_orthonormal; tsqr_recursive: the recursive level composes; "
+    "sfqr_n_blocks for any number of column blocks; svd_from_qr, svd_from_qr_orthonormal; the two-block versions). NOT "
+    "proved: that the graph dask builds wires exactly these products (validated: tsqrplan diff + residual checks), einsum's index bookkeeping, and anything numerical — "
     "orthonormality, triangularity, residuals and singular values are validated against NumPy within tolerance."
 )
 LEVEL_NOTE = ("Trusted: np.tensordot/np.einsum/np.matmul on one block, LAPACK QR/SVD (np.linalg.qr/svd), NumPy as the "
